@@ -69,8 +69,48 @@ def sepB (q : Nat → Rat) (n : Nat) : Bool :=
   (List.range n).all (fun i => (List.range n).all (fun j => !(ceG (q i) (q j)) || decide (q i = q j)))
 
 def maxL (l : List Rat) : Rat := l.foldl maxQ (l.getD 0 0)
+def maxAbsL (l : List Rat) : Rat := l.foldl (fun m x => maxQ m (absQ x)) 0
+
+/-- `checkEqualGeneral` is transitive on the row (with reflexivity and symmetry: an equivalence) — "clustered" rows: exact ties,
+    ties inside the library tolerance, everything else separated.  The hypothesis of `greedy_classes`. -/
+def clsB (q : Nat → Rat) (n : Nat) : Bool :=
+  (List.range n).all (fun i => (List.range n).all (fun j => (List.range n).all (fun k =>
+    !(ceG (q i) (q j) && ceG (q j) (q k)) || ceG (q i) (q k))))
+
+/-- some pair sits within 0.1 % of one of the two tolerance thresholds: the double comparison may round either way -/
+def illB (q : Nat → Rat) (n : Nat) : Bool :=
+  let near := fun (d t : Rat) => d != 0 && decide (t * (999 / 1000) ≤ d) && decide (d ≤ t * (1001 / 1000))
+  (List.range n).any (fun i => (List.range n).any (fun j =>
+    let d := absQ (q i - q j)
+    near d tolS || near d (minQ (absQ (q i)) (absQ (q j)) * tolG)))
+
+/-- the tie relation is the same before and after the shift -/
+def sameRelB (q : Nat → Rat) (c : Rat) (n : Nat) : Bool :=
+  (List.range n).all (fun i => (List.range n).all (fun j => ceG (q i) (q j) == ceG (q i + c) (q j + c)))
+
+def cmpOf (g : Bool) : Cmp := if g then ceG else ceS
+/-- QGreedyPolicyWrapper as the source currently has it (translator: `Gen.C09.greedy…`) -/
+def gform : GForm := ⟨AITB.Gen.C09.greedyMaxFirst, cmpOf AITB.Gen.C09.greedyCmpSampleG, cmpOf AITB.Gen.C09.greedyCmpProbG,
+  cmpOf AITB.Gen.C09.greedyCmpPol1G, cmpOf AITB.Gen.C09.greedyCmpPol2G⟩
+/-- WoLFPolicy::stepUpdateP's own copy of the scan -/
+def wolfForm : GForm := ⟨false, cmpOf AITB.Gen.C09.wolfCmpG, ceG, ceG, ceG⟩
 
 def lemireGet (r : Nat) (ws : List Nat) : Option Nat := (lemire r ws).map (·.1)
+
+/-- the property clauses of a greedy-type policy on the implementation's own outputs.  On clustered rows (`clsB`) each clause is
+    reported under its own name; on rows where `checkEqualGeneral` is not transitive (chains of near-ties) any incoherence is
+    reported under the single clause `incoherent_on_nontransitive_ties` (recorded finding; never masks a failure on a clustered row). -/
+def greedyJudge (v : Verdict) (comp : String) (qf : Nat → Rat) (q : List Rat) (n : Nat) (probs policy : List Rat) (samples : List Nat) : Verdict :=
+  let j : Verdict := {}
+  let j := coherent j comp n probs policy samples
+  let mx := maxL q
+  let j := j.failIf ((List.range n).any (fun a => decide (probs.getD a 0 > 0) && !(ceG (qf a) mx))) s!"{comp} mass_off_argmax query"
+  let j := j.failIf ((List.range n).any (fun a => decide (policy.getD a 0 > 0) && !(ceG (qf a) mx))) s!"{comp} mass_off_argmax table"
+  let j := j.failIf (samples.any (fun a => !(ceG (qf a) mx))) s!"{comp} mass_off_argmax sample"
+  if clsB qf n then { v with fails := v.fails ++ j.fails, diffs := v.diffs ++ j.diffs }
+  else match j.fails with
+    | f :: _ => { v with diffs := v.diffs ++ j.diffs }.failIf true s!"{comp} incoherent_on_nontransitive_ties ({f})"
+    | [] => { v with diffs := v.diffs ++ j.diffs }
 
 /-- greedy -/
 def greedy : P String := do
@@ -81,19 +121,15 @@ def greedy : P String := do
   P.eof
   if n == 0 then return "skip empty" else
   let qf := fn q
+  if illB qf n then return "skip ill_conditioned" else
   let sep := sepB qf n
-  let v : Verdict := { tag := if sep then "greedy" else "greedy nonsep" }
-  let v := v.diffIf (!(closeL (tab n (gProb qf n)) probs)) s!"{comp} getActionProbability model={showL (tab n (gProb qf n))} impl={showL probs}"
-  let v := v.diffIf (!(closeL (tab n (gPolicy qf n)) policy)) s!"{comp} getPolicy model={showL (tab n (gPolicy qf n))} impl={showL policy}"
-  let v := samp.foldl (fun v (w, a) => v.diffIf (gSample qf n w != some a) s!"{comp} sampleAction model={gSample qf n w} impl={a}") v
-  -- outside the separation hypothesis only the correspondence is checked (the property does not quantify over such inputs)
-  if !sep then return v.render else
-  let v := coherent v comp n probs policy (samp.map (·.2))
-  let mx := maxL q
-  let v := v.failIf ((List.range n).any (fun a => decide (probs.getD a 0 > 0) && decide (qf a < mx))) s!"{comp} mass_off_argmax query"
-  let v := v.failIf ((List.range n).any (fun a => decide (policy.getD a 0 > 0) && decide (qf a < mx))) s!"{comp} mass_off_argmax table"
-  let v := v.failIf (samp.any (fun (_, a) => decide (qf a < mx))) s!"{comp} mass_off_argmax sample"
-  return v.render
+  let v : Verdict := { tag := if sep then "greedy" else if clsB qf n then "greedy classes" else "greedy nontransitive" }
+  let mP := tab n (gform.prob qf n)
+  let mT := tab n (gform.policy qf n)
+  let v := v.diffIf (!(closeL mP probs)) s!"{comp} getActionProbability model={showL mP} impl={showL probs}"
+  let v := v.diffIf (!(closeL mT policy)) s!"{comp} getPolicy model={showL mT} impl={showL policy}"
+  let v := samp.foldl (fun v (w, a) => v.diffIf (gform.sample qf n w != some a) s!"{comp} sampleAction model={gform.sample qf n w} impl={a}") v
+  return (greedyJudge v comp qf q n probs policy (samp.map (·.2))).render
 
 def random : P String := do
   let comp ← P.tok; let n ← P.nat; P.bar
@@ -143,17 +179,17 @@ def softmax : P String := do
   let sumE := sumTo n ef
   -- model (skipped where the model itself divides by zero: the implementation then produces NaN, reported above)
   let degenerate := !deleg && !((List.range n).any inf) && sumE == 0
-  let mProb := if deleg then gProb qf n else smProb ef inf n
-  let mPol := if deleg then gPolicy qf n else smPolicy AITB.Gen.C09.smPolicySmallSumUniform ef inf n
+  if deleg && illB qf n then return "skip ill_conditioned" else
+  let mProb := if deleg then gform.prob qf n else smProb ef inf n
+  let mPol := if deleg then gform.policy qf n else smPolicy AITB.Gen.C09.smPolicySmallSumUniform ef inf n
   let v := v.diffIf (!degenerate && !(closeL (tab n mProb) probs)) s!"{comp} getActionProbability model={showL (tab n mProb)} impl={showL probs}"
   let v := v.diffIf (!(degenerate && !AITB.Gen.C09.smPolicySmallSumUniform) && !(closeL (tab n mPol) policy)) s!"{comp} getPolicy model={showL (tab n mPol)} impl={showL policy}"
   let v := samp.foldl (fun v (u, w, a) =>
-      let m := if deleg then gSample qf n w else smSample ef inf n u w
+      let m := if deleg then gform.sample qf n w else smSample ef inf n u w
       -- the scan compares u with rounded cumulative sums: compare only when u is not within 1e-9 of a breakpoint
       let near := !deleg && !((List.range n).any inf) && (List.range (n + 1)).any (fun k => closeQ tol (sumTo k (fun i => ef i / sumE)) u)
       v.diffIf (!degenerate && !near && m != some a) s!"{comp} sampleAction model={m} impl={a}") v
-  let sep := sepB qf n
-  if deleg && !sep then return v.render else
+  if deleg then return (greedyJudge v comp qf q n probs policy (samp.map (·.2.2))).render else
   return (coherent v comp n probs policy (samp.map (·.2.2))).render
 
 def eps : P String := do
@@ -173,7 +209,7 @@ def eps : P String := do
   if !(closeQ tol (sumL wp) 1) || wp.any (· < 0) then return v.render else
   return (coherent v comp n probs policy (samp.map (·.2.2.2))).render
 
-/-- `kind` = exact (tables must be identical) | close (within 1e-9) -/
+/-- `kind` = exact (tables must be identical) | close (within 1e-9) | closeS (as close, admissible only when the softmax subtracts the maximum) | none (samples only) -/
 def shift : P String := do
   let comp ← P.tok; let kind ← P.tok; let n ← P.nat; let q ← P.rep P.q n; let c ← P.q; P.bar
   let pa ← P.rep P.x n; let pb ← P.rep P.x n
@@ -181,7 +217,9 @@ def shift : P String := do
   let samp ← P.rep (do let a ← P.nat; let b ← P.nat; pure (a, b)) ns
   P.eof
   let qf := fn q
-  if kind == "exact" && !(sepB qf n && sepB (fun i => qf i + c) n) then return "skip not_separated" else
+  -- "shifts that … preserve that separation": both rows clustered, same tie relation, no pair at a tolerance threshold
+  if kind == "exact" && !(clsB qf n && clsB (fun i => qf i + c) n && sameRelB qf c n && !(illB qf n) && !(illB (fun i => qf i + c) n)) then return "skip not_separated" else
+  if kind == "closeS" && !AITB.Gen.C09.smSubtractMax then return "skip inadmissible_shift" else
   let v : Verdict := { tag := "shift" }
   match finL pa, finL pb with
   | some a, some b =>
@@ -234,14 +272,14 @@ def wolf : P String := do
   let st0 : List (List Rat × List Rat × Nat) := List.replicate S (uni, uni, 0)
   let (v, st) := (ops.zip rows).foldl (fun (v, st) ((s, q, w), row) =>
       let r := st.getD s (uni, uni, 0)
-      match gSample (fn q) n w with
+      match wolfForm.sample (fn q) n w with
       | none => (v.diffIf true s!"{comp} words_exhausted", st)
       | some best =>
         let r0 : WRow := ⟨fn r.1, fn r.2.1, r.2.2⟩
         let r' := wolfStep n dW dL sc (fn q) best r0
         -- the learning-rate choice compares two expected values: below a margin of 1e-9 the step is not compared
         let (avgV, actV) := wolfVals n (fn q) r0
-        let ill := closeQ tol avgV actV && decide (dW ≠ dL)
+        let ill := (closeQ tol avgV actV || decide (absQ (avgV - actV) ≤ maxAbsL q / 8796093022208)) && decide (dW ≠ dL) || illB (fn q) n
         -- the model follows the implementation's own row (the hidden running average is the model's)
         (v.diffIf (!ill && !(closeL (tab n r'.act) row)) s!"{comp} stepUpdateP model={showL (tab n r'.act)} impl={showL row}",
          st.set s (tab n r'.avg, row, r'.c))) (v, st0)
@@ -272,9 +310,14 @@ def pgaapp : P String := do
       let pre := fn (tab n (pgaPre n lr pl (fn q) r))
       let sum := projSum n pre
       -- tolerance branches of projectToProbability: skip the comparison when the margin is below 1e-9
-      let ill := closeQ tol (absQ (sum - 1)) tolS || closeQ tol (absQ sum) tolS || closeQ tol sum 1 && !(ceS sum 1)
+      -- rounding of `avgR = row·q` (error ≈ |q|·2^-50) is amplified by lr·(1+pl)/(1-row a): the comparison tolerance follows it
+      let amp := (tab n r).foldl (fun m x => if ceS x 1 then m else maxQ m (1 / (1 - x))) 1
+      let tolP := tol + maxAbsL q * lr * (1 + pl) * amp / 17592186044416
+      let nearP := fun (a b : Rat) => decide (absQ (a - b) ≤ tolP)
+      let ill := nearP (absQ (sum - 1)) tolS || nearP (absQ sum) tolS || nearP sum 1 && !(ceS sum 1)
       let r' := tab n (project AITB.Gen.C09.projRepaired n pre)
-      (v.diffIf (!ill && !(closeL r' row)) s!"{comp} stepUpdateP model={showL r'} impl={showL row}", st.set s row)) (v, st0)
+      let closeP := r'.length == row.length && (r'.zip row).all (fun (x, y) => nearP x y)
+      (v.diffIf (!ill && !closeP) s!"{comp} stepUpdateP model={showL r'} impl={showL row}", st.set s row)) (v, st0)
   let v := samp.foldl (fun v (s, u, x) =>
       let row := final.getD s []
       let near := (List.range (n + 1)).any (fun j => closeQ tol (sumTo j (fn row)) u)
